@@ -1063,6 +1063,12 @@ static bool construct(StepCtx& c, BP& slot) {
   if (R->dim() != n) { violation(key_sound(name, "dimension"), "constructed box has dimension " + std::to_string(R->dim()) + " instead of " + std::to_string(n)); return false; }
   Shadow RS; if (!observe(*R, RS, name)) return false;
   std::string ctx = "source " + srctxt;
+  if (TI.bits && T.pieces.size() == 1 && T.pieces[0].aux == 0) {
+    mpz_class tmax = TI.sgn ? mpz_class(pow2(TI.bits - 1) - 1) : mpz_class(pow2(TI.bits) - 1), tmin = TI.sgn ? mpz_class(-pow2(TI.bits - 1)) : mpz_class(0);
+    const Sys& ss = T.pieces[0].s; bool ex = false;
+    for (size_t i = 0; i < ss.size(); ++i) { int cnt = 0, kk = -1; for (int j = 0; j < n && j < (int) ss[i].a.size(); ++j) if (ss[i].a[j] != 0) { ++cnt; kk = j; } if (cnt == 1) { Q v = ss[i].b / ss[i].a[kk]; if (v > Q(tmax) || v < Q(tmin)) ex = true; } }
+    if (ex) cls += (cls.empty() ? "" : "+") + std::string("source-bound-exceeds-T");
+  }
   if (check_sound(key_sound(name, cls), T, RS, ctx) && TI.exact && best) check_best("C04.best.box." + name, T, RS, ctx);
   slot = std::move(R);
   return true;
@@ -1195,20 +1201,22 @@ static void integer_ops(StepCtx& c, BP& slot) {
     checked(); hx::count("wrap_checks");
     auto wrapv = [&](const mpz_class& z) { mpz_class u; mpz_fdiv_r_2exp(u.get_mpz_t(), z.get_mpz_t(), w); if (sgn && u >= pow2(w - 1)) u -= M; return u; };
     unsigned long moved = 0;
+    // triage class = first matching root-cause predicate on the failing dimension (deterministic)
     auto classify = [&](const Vec& p, const Vec& q) {
       int kf = -1; for (int k = 0; k < n; ++k) if (R.empty || !member(R.iv[k], q[k])) { kf = k; break; }
       std::string cls = ovn;
-      if (kf >= 0) {
-        const Itv& a = SA.iv[kf];
-        bool g = false; for (size_t i = 0; i < gv.size(); ++i) if ((int) gv[i].space_dimension() > kf && gv[i].coefficient(Variable(kf)) != 0) g = true;
-        if (!wr[kf]) cls += "+unwrapped-dim";
-        else if (a.lo.inf || a.hi.inf) cls += "+unbounded";
-        else { Q e = a.hi.v - a.lo.v; cls += e < Q(M) - 1 ? "+extent<period" : e == Q(M) ? "+extent=period" : e < Q(M) ? "+extent=period-1" : "+extent>period";
-          mpz_class ql = zfloor((a.lo.v - Q(lo)) / Q(M)), qh = zfloor((a.hi.v - Q(lo)) / Q(M)); cls += ql == qh ? "+1quadrant" : qh - ql == 1 ? "+2quadrants" : "+3+quadrants"; }
-        if (g) cls += "+guard";
-        if (ov == 1 && !TI.open && wr[kf] && p[kf] == Q(hi + 1)) cls += "+closed-ITV+point-at-quadrant-sup";
-        if (TI.bits && wr[kf]) { mpz_class tmax = TI.sgn ? mpz_class(pow2(TI.bits - 1) - 1) : mpz_class(pow2(TI.bits) - 1), tmin = TI.sgn ? mpz_class(-pow2(TI.bits - 1)) : mpz_class(0); if (hi + 1 > tmax || lo < tmin) cls += "+quadrant-unrepresentable-in-T"; }
-      }
+      if (kf < 0) return cls;
+      const Itv& a = SA.iv[kf];
+      bool g = false; for (size_t i = 0; i < gv.size(); ++i) if ((int) gv[i].space_dimension() > kf && gv[i].coefficient(Variable(kf)) != 0) g = true;
+      if (!wr[kf]) return cls + "+unwrapped-dim" + (g ? "+guard" : "");
+      bool unb = a.lo.inf || a.hi.inf;
+      if (ov == 0 && !unb && a.hi.v - a.lo.v == Q(M)) return cls + "+extent=period";
+      if (ov == 1 && TI.bits) { mpz_class tmax = TI.sgn ? mpz_class(pow2(TI.bits - 1) - 1) : mpz_class(pow2(TI.bits) - 1), tmin = TI.sgn ? mpz_class(-pow2(TI.bits - 1)) : mpz_class(0); if (hi + 1 > tmax || lo < tmin) return cls + "+quadrant-unrepresentable-in-T"; }
+      if (ov == 1 && !TI.open && p[kf] == Q(hi + 1)) return cls + "+closed-ITV+point-at-quadrant-sup";
+      if (unb) cls += "+unbounded";
+      else { Q e = a.hi.v - a.lo.v; cls += e < Q(M) - 1 ? "+extent<period" : e < Q(M) ? "+extent=period-1" : "+extent>period";
+        mpz_class ql = zfloor((a.lo.v - Q(lo)) / Q(M)), qh = zfloor((a.hi.v - Q(lo)) / Q(M)); cls += ql == qh ? "+1quadrant" : qh - ql == 1 ? "+2quadrants" : "+3+quadrants"; }
+      if (g) cls += "+guard";
       return cls;
     };
     unsigned long pts = enumerate_points(SA, wr, (lo + hi) / 2, [&](const Vec& p) {
